@@ -348,7 +348,11 @@ Attempt(ag, gk, recv, name, as, outcome, deadline, start) ==
 NflogLog(gk, name, firing, resolved) ==
   LET i == name
       live == LiveOf(gk)
-      ag == CHOOSE x \in live : TRUE
+      \* two flushes of one group key can be in progress (a destroyed group still finishing while
+      \* its successor, created meanwhile, already flushes): the write belongs to one that awaits it
+      waiting == {x \in live : name \in DOMAIN fl[x].att /\ ~fl[x].att[name].logged /\
+                                (fl[x].att[name].done \/ (~SrOf(gk, name) /\ firing = {}))}
+      ag == IF waiting # {} THEN CHOOSE x \in waiting : TRUE ELSE CHOOSE x \in live : TRUE
       f == fl[ag]
       at == f.att[i]
       skip == ~SrOf(gk, i) /\ firing = {}
@@ -380,8 +384,11 @@ FlushDone(ag) ==
       entryExpired(i) == <<f.gk, i>> \in DOMAIN last /\ f.t - last[<<f.gk, i>>].t >= 2 * Opt(f.gk).ri
       \* what this instance knows, at the end of the flush, to have been delivered last (its own
       \* delivery of this flush, or a peer's log entry merged meanwhile)
-      knownFiring(i) == IF <<f.gk, i>> \in DOMAIN last THEN last[<<f.gk, i>>].firing ELSE {}
-      knownResolved(i) == IF <<f.gk, i>> \in DOMAIN last THEN last[<<f.gk, i>>].resolved ELSE {}
+      \* (or, when a successor group of the same key has notified since, this flush's own delivery)
+      knownFiring(i) == (IF <<f.gk, i>> \in DOMAIN last THEN last[<<f.gk, i>>].firing ELSE {})
+                        \cup (IF f.att[i].done THEN FiringOf(f.att[i].sent) ELSE {})
+      knownResolved(i) == (IF <<f.gk, i>> \in DOMAIN last THEN last[<<f.gk, i>>].resolved ELSE {})
+                          \cup (IF f.att[i].done THEN ResolvedOf(f.att[i].sent) ELSE {})
       newResolved(i) == IF SrOf(f.gk, i) THEN {a \in exp(i) : Entry(f.alerts, a).status = "resolved"} \cap f.prevF[i] ELSE {}
       bad ==
         IF ag \notin DOMAIN fl THEN {"C06_done_outside_flush"}
